@@ -316,7 +316,9 @@ func c13Assert(w *World, r *Result) {
 					pos := w.Pos(ta.Pos())
 					want, hasTag := tagOf[tname]
 					holds := tagHolds(ta.X, b)
-					if hasTag && holds[want] {
+					// several tags (case A, B:) are alternatives: only one of them holds, so a concrete
+					// type is established by a single tag only
+					if hasTag && holds[want] && len(holds) == 1 {
 						r.Ok(rule, key, pos, "dominated by the test StatementType() == "+fmt.Sprintf("%q", want))
 						continue
 					}
